@@ -26,7 +26,7 @@ import zlib
 from . import common, translate
 
 FILES = ["grid/grid.py", "grid/connectivity.py", "grid/coordinates.py", "grid/neighbors.py", "grid/geometry.py",
-         "grid/validation.py"]
+         "grid/validation.py", "grid/slice.py", "io/_ugrid.py", "io/_exodus.py", "io/_scrip.py"]
 
 GROUPS = ["nodeLL", "nodeXYZ", "edgeLL", "edgeXYZ", "faceLL", "faceXYZ", "faceNode", "edgeNode", "faceEdge",
           "edgeFace", "faceFace", "nodeFace", "nPer", "areas", "bounds", "enDist", "efDist", "holes", "enZ",
@@ -52,6 +52,7 @@ class Source:
     def __init__(self):
         root = common.REPO / "uxarray"
         self.funcs = {}
+        self.shadowed = []   # earlier definitions of a name defined twice in one module set
         self.grid_cls = None
         for rel in FILES:
             p = root / rel
@@ -60,6 +61,8 @@ class Source:
             tree = ast.parse(p.read_text())
             for node in tree.body:
                 if isinstance(node, ast.FunctionDef):
+                    if node.name in self.funcs:
+                        self.shadowed.append((rel, node))
                     self.funcs[node.name] = (rel, node)
                 if isinstance(node, ast.ClassDef) and node.name == "Grid" and rel == "grid/grid.py":
                     self.grid_cls = node
@@ -280,6 +283,120 @@ class Analyzer:
                     eff.merge(sub)
 
 
+ALIASING_CALLS = {"asarray", "asanyarray", "ascontiguousarray", "atleast_1d", "atleast_2d", "ravel", "reshape",
+                  "squeeze", "view", "transpose"}
+INPLACE_METHODS = {"sort", "fill", "partition", "put", "itemset", "resize", "setfield", "byteswap"}
+
+
+class Taint:
+    """in-place operations on arrays that (may) alias a stored variable: names bound to `<…>.values` /
+    `.data`, passed on through `np.asarray`-like calls and into the functions of the analysed modules;
+    flagged: `x op= …`, `x[...] = …`, `out=x`, `x.sort()`-like methods"""
+
+    def __init__(self, src):
+        self.src = src
+        self.found = []
+        self.seen = set()
+
+    def may_alias(self, e, tainted):
+        if isinstance(e, ast.Name):
+            return e.id in tainted
+        if isinstance(e, ast.Attribute):
+            return e.attr in ("values", "data") or (e.attr == "T" and self.may_alias(e.value, tainted))
+        if isinstance(e, ast.Subscript):
+            # basic slicing gives a view; fancy indexing a copy — a slice of an alias stays an alias
+            return self.may_alias(e.value, tainted) and isinstance(e.slice, (ast.Slice, ast.Tuple))
+        if isinstance(e, ast.Call):
+            f = e.func
+            name = f.attr if isinstance(f, ast.Attribute) else getattr(f, "id", "")
+            if name in ALIASING_CALLS:
+                args = list(e.args) + ([f.value] if isinstance(f, ast.Attribute) and not
+                                       (isinstance(f.value, ast.Name) and f.value.id in ("np", "numpy")) else [])
+                return any(self.may_alias(a, tainted) for a in args)
+            return False
+        if isinstance(e, (ast.Tuple, ast.List)):
+            return any(self.may_alias(x, tainted) for x in e.elts)
+        if isinstance(e, ast.GeneratorExp):
+            inner = set(tainted)
+            for c in e.generators:
+                if self.may_alias(c.iter, tainted):
+                    for n in ast.walk(c.target):
+                        if isinstance(n, ast.Name):
+                            inner.add(n.id)
+            return self.may_alias(e.elt, inner)
+        if isinstance(e, ast.IfExp):
+            return self.may_alias(e.body, tainted) or self.may_alias(e.orelse, tainted)
+        return False
+
+    def scan(self, fn, tainted, where, depth=0):
+        key = (where, tuple(sorted(tainted)))
+        if key in self.seen or depth > 4:
+            return
+        self.seen.add(key)
+        self._block(fn.body, set(tainted), where, depth)
+
+    def _block(self, stmts, tainted, where, depth):
+        for st in stmts:
+            if isinstance(st, ast.If):
+                self._calls(st.test, tainted, where, depth)
+                t1, t2 = set(tainted), set(tainted)
+                self._block(st.body, t1, where, depth)
+                self._block(st.orelse, t2, where, depth)
+                new = (t1 | t2) if st.orelse else (t1 | tainted)
+                tainted.clear()
+                tainted |= new
+                continue
+            if isinstance(st, (ast.For, ast.While, ast.With, ast.Try)):
+                for f in ("body", "orelse", "finalbody"):
+                    self._block(getattr(st, f, []), tainted, where, depth)
+                for h in getattr(st, "handlers", []):
+                    self._block(h.body, tainted, where, depth)
+                continue
+            if isinstance(st, ast.AugAssign):
+                self._calls(st.value, tainted, where, depth)
+                tg = st.target
+                base = tg.value if isinstance(tg, ast.Subscript) else tg
+                if isinstance(base, ast.Name) and base.id in tainted:
+                    self.found.append(f"{where}: {ast.unparse(st)}")
+                continue
+            if isinstance(st, ast.Assign):
+                self._calls(st.value, tainted, where, depth)
+                alias = self.may_alias(st.value, tainted)
+                for tg in st.targets:
+                    if isinstance(tg, ast.Subscript) and isinstance(tg.value, ast.Name) and tg.value.id in tainted:
+                        self.found.append(f"{where}: {ast.unparse(tg)} = …")
+                    for n in ([tg] if isinstance(tg, ast.Name) else
+                              [x for x in ast.walk(tg) if isinstance(tg, (ast.Tuple, ast.List)) and isinstance(x, ast.Name)]):
+                        if alias:
+                            tainted.add(n.id)
+                        else:
+                            tainted.discard(n.id)
+                continue
+            if isinstance(st, (ast.FunctionDef, ast.ClassDef)):
+                continue
+            for node in ast.iter_child_nodes(st):
+                if isinstance(node, ast.expr):
+                    self._calls(node, tainted, where, depth)
+
+    def _calls(self, e, tainted, where, depth):
+        for n in ast.walk(e):
+            if not isinstance(n, ast.Call):
+                continue
+            f = n.func
+            for kw in n.keywords:
+                if kw.arg == "out" and self.may_alias(kw.value, tainted):
+                    self.found.append(f"{where}: {ast.unparse(n)[:80]} (out=)")
+            if isinstance(f, ast.Attribute) and f.attr in INPLACE_METHODS and self.may_alias(f.value, tainted):
+                self.found.append(f"{where}: {ast.unparse(n)[:80]}")
+            if isinstance(f, ast.Name) and f.id in self.src.funcs:
+                rel, fn = self.src.funcs[f.id]
+                params = [a.arg for a in fn.args.args]
+                t = {params[i] for i, a in enumerate(n.args) if i < len(params) and self.may_alias(a, tainted)}
+                t |= {kw.arg for kw in n.keywords if kw.arg in params and self.may_alias(kw.value, tainted)}
+                if t:
+                    self.scan(fn, t, f.id, depth + 1)
+
+
 def extract():
     src = Source()
     an = Analyzer(src)
@@ -347,6 +464,14 @@ def extract():
         for n in ast.walk(wrapfn[1]):
             if isinstance(n, ast.List) and all(isinstance(x, ast.Constant) for x in n.elts):
                 wrap_targets = [x.value for x in n.elts]
+    # in-place operations on (possible) aliases of stored arrays, in every function of the analysed
+    # modules and every Grid property / method, followed through calls
+    taint = Taint(src)
+    for name, (rel, fn) in src.funcs.items():
+        taint.scan(fn, set(), name)
+    for name, fn in list(src.props.items()) + list(src.methods.items()):
+        taint.scan(fn, set(), "Grid." + name)
+    inplace += [m for m in taint.found if m not in inplace]
     return dict(table=table, unknown=unknown, module_writes=module_writes, inplace=inplace, drops=drops,
                 wrap_targets=wrap_targets, missing=[p for p in GROUP_OF if p not in per_prop])
 
